@@ -359,15 +359,21 @@ RulesJWTBearer(a, o) ==
     <<"C05.refused.doc",  (~ok) => (o.status >= 400 /\ o.doc)>> }
 
 RulesEndSession(a, o) ==
-  \* a.hint : [kind : none|valid|expired|wrongkey|wrongiss|algnone, id] ; a.client : "" or client ; a.uri : "" or name
+  \* a.hint : [kind : none|valid|expired|multiaud|wrongkey|wrongiss|algnone, id] ; a.client : "" or client ; a.uri : "" or name ;
+  \* a.host : "A" (the issuer every token of the history was issued under) | "B" (a second tenant of an issuer-from-host provider)
+  \* kind multiaud: a validly signed hint whose audience also lists a second client (azp = the client it was issued to)
   LET h == a.hint
-      hintOK == h.kind \in {"valid", "expired"} /\ Has(idts, h.id)
+      foreignTenant == cfg.dyn /\ a.host = "B"          \* the hint names another issuer than the one the request is addressed to
+      hintOK == h.kind \in {"valid", "expired", "multiaud"} /\ Has(idts, h.id) /\ ~foreignTenant
       proven == IF h.kind # "none" THEN (IF hintOK THEN idts[h.id].client ELSE "none")
                 ELSE IF a.client \in Clients THEN a.client ELSE "none"
       registered == proven \in Clients /\ a.uri \in Reg[proven].postLogout IN
   { <<"C18.redirect.registered", (o.class = "redirect" /\ o.target # "default") => (registered /\ o.target = a.uri)>>,
     <<"C18.hint.bad",    (h.kind \in {"wrongkey", "wrongiss", "algnone"}) => o.class # "redirect">>,
+    <<"C18.hint.foreignIssuer", (h.kind # "none" /\ foreignTenant) => o.class # "redirect">>,
     <<"C18.hint.expired", (h.kind = "expired" /\ hintOK /\ a.client \in {"", idts[h.id].client}
+                             /\ (a.uri = "" \/ registered)) => o.class = "redirect">>,
+    <<"C18.hint.valid",  (h.kind \in {"valid", "multiaud"} /\ hintOK /\ a.client \in {"", idts[h.id].client}
                              /\ (a.uri = "" \/ registered)) => o.class = "redirect">>,
     <<"C18.contradiction", (hintOK /\ a.client # "" /\ a.client # idts[h.id].client) => o.class # "redirect">>,
     <<"C18.session", (o.class = "redirect" /\ hintOK) => (o.sub = idts[h.id].sub /\ o.req = idts[h.id].client)>>,
@@ -450,7 +456,7 @@ Universal(e) == { <<"C09.nopanic", e.out.class # "panic">>,
 \* Rules that EXPECT a particular answer of a fitting request.  When a storage call failed while the request was served
 \* (out.faulted) an error answer is legitimate (C10 demands it), so these rules do not apply to such an event.
 Expectations == {"C07.refresh.invalidScope", "C08.revoke.unknown", "C08.revoke.owner", "C16.poll.pending", "C16.poll.denied",
-                 "C16.poll.expired", "C16.poll.slow", "C18.hint.expired"}
+                 "C16.poll.expired", "C16.poll.slow", "C18.hint.expired", "C18.hint.valid"}
 
 Check(e) == {r[1] : r \in {x \in Rules(e) \cup RulesIssued(e) \cup Universal(e) : ~x[2] /\ ~(e.out.faulted /\ x[1] \in Expectations)}}
 =============================================================================
